@@ -8,6 +8,7 @@ import (
 	"encoding/json"
 	"fmt"
 	"io"
+	"log"
 	"net"
 	"net/http"
 	"net/http/httptest"
@@ -454,9 +455,11 @@ func vc02Bytes(r *vRand, n int) []byte {
 func vC02Gen(e *vEnv, r *vRand) []vCase {
 	var cases []vCase
 	n := e.scale(60, 600)
-	for i := 0; i < n; i++ {
+	nshift := e.scale(4, 12)
+	for i := 0; i < n+nshift; i++ {
 		rr := r.fork()
 		c := vc02GenCfg(rr)
+		shiftCase := i >= n
 		ops := []string{c.op()}
 		all := append([]vc02Backend{}, c.backends...)
 		if c.compat != nil {
@@ -535,24 +538,28 @@ func vC02Gen(e *vEnv, r *vRand) []vCase {
 			q = base
 			q.body, q.tag = []byte{}, "empty-body"
 			add(q)
-			// boundary shifts: random||body unchanged, the boundary moved
-			for _, k := range []int{1, 2, 5} {
-				if len(random) > k {
+			// boundary shifts: random||body unchanged, the boundary moved.  They reproduce the known
+			// finding C02-boundary-shift-authenticates, so they live in a few dedicated cases at the
+			// end of the run: the orchestrator looks at the first issue of each case only.
+			if shiftCase {
+				for _, k := range []int{1, 2, 5} {
+					if len(random) > k {
+						q = base
+						q.random, q.body, q.tag = random[:len(random)-k], append([]byte(random[len(random)-k:]), body...), "shift-to-body"
+						add(q)
+					}
+					if len(body) > k && vc02HeaderLegal(body[:k]) {
+						q = base
+						q.random, q.body, q.tag = random+string(body[:k]), body[k:], "shift-to-random"
+						add(q)
+					}
+				}
+				// everything into the random
+				if vc02HeaderLegal(body) {
 					q = base
-					q.random, q.body, q.tag = random[:len(random)-k], append([]byte(random[len(random)-k:]), body...), "shift-to-body"
+					q.random, q.body, q.tag = random+string(body), []byte{}, "shift-all-to-random"
 					add(q)
 				}
-				if len(body) > k && vc02HeaderLegal(body[:k]) {
-					q = base
-					q.random, q.body, q.tag = random+string(body[:k]), body[k:], "shift-to-random"
-					add(q)
-				}
-			}
-			// everything into the body / into the random
-			if vc02HeaderLegal(body) {
-				q = base
-				q.random, q.body, q.tag = random+string(body), []byte{}, "shift-all-to-random"
-				add(q)
 			}
 			// the secret of another backend
 			for _, o := range all {
@@ -923,5 +930,7 @@ func vC02Exec(t *testing.T, c *vCase) {
 }
 
 func TestVerifC02(t *testing.T) {
+	// the server logs refused bodies verbatim (arbitrary bytes): keep them out of the test output
+	log.SetOutput(io.Discard)
 	vRun(t, vC02Gen, vC02Exec)
 }
